@@ -206,6 +206,15 @@ func (x *Exec) addrOf(st *State, fr *frame, p Val, pos token.Pos, what string) *
 	if a := st.resolveEncoded(p.T); a != nil {
 		return a
 	}
+	if x.e.eptrDone && x.c != nil && x.c.ElemPtrs {
+		// a pointer that came out of memory: object or slice element? ask which is refutable on this path
+		if isObj, isElem := x.refuteEither(st, "(iselem "+p.T+")"); isElem {
+			st.assumePC("(iselem " + p.T + ")")
+			return &Addr{Kind: AElem, Base: st.name("eb", "Int", "(ebase "+p.T+")"), Idx: st.name("ei", "Int", "(eidx "+p.T+")"), RootTy: pt.Elem()}
+		} else {
+			_ = isObj // undetermined: as everywhere else, a pointer of unknown provenance is taken to refer to an object
+		}
+	}
 	x.obligeAt(st, fr, "nil-deref", pos, what, "(not (= "+p.T+" 0))")
 	st.assume("(not (= " + p.T + " 0))")
 	return &Addr{Kind: AObj, Loc: p.T, RootTy: pt.Elem()}
@@ -344,6 +353,10 @@ func (x *Exec) verify() {
 		ctx.vars[lv[0]] = v
 	}
 	x.prune = c.Prune
+	e.curElemPtrs = c.ElemPtrs
+	if c.ElemPtrs {
+		e.needEptr()
+	}
 	for _, d := range c.Dyns {
 		if err := x.bindDyn(st, fr, ctx, d[0], strings.ReplaceAll(d[1], "$K", x.caseName)); err != nil {
 			x.errs = append(x.errs, "dyn "+d[0]+": "+err.Error())
@@ -488,9 +501,14 @@ func (x *Exec) localCtx(st *State, fr *frame, li *loopInfo) *SpecCtx {
 	ctx.lookup = func(name string) (Val, bool) {
 		want := name
 		ord := 1
+		wantTy := ""
 		if i := strings.Index(name, "#"); i > 0 {
 			want = name[:i]
-			fmt.Sscanf(name[i+1:], "%d", &ord)
+			if _, err := fmt.Sscanf(name[i+1:], "%d", &ord); err != nil {
+				// name#LJstring: the local of that name whose type is []string (type spelled as sanitize(typeKey) does);
+				// robust against added or reordered declarations of the same name
+				ord, wantTy = 1, name[i+1:]
+			}
 		}
 		if want == "$i" || want == "$done" {
 			// range index cell of this loop
@@ -510,6 +528,9 @@ func (x *Exec) localCtx(st *State, fr *frame, li *loopInfo) *SpecCtx {
 		n := 0
 		for _, al := range fr.allocs {
 			if al.Comment == want {
+				if wantTy != "" && sanitize(typeKey(al.Type().(*types.Pointer).Elem())) != wantTy {
+					continue
+				}
 				n++
 				if n == ord {
 					if r, ok := fr.regs[al]; ok && r.Addr != nil {
@@ -703,7 +724,7 @@ func (x *Exec) runBlock(st *State, fr *frame, b *ssa.BasicBlock, from int) []out
 			continue
 		case *ssa.If:
 			c := x.val(st, fr, in.Cond)
-			if x.prune && c.T != "true" && c.T != "false" {
+			if (x.prune || (x.c != nil && x.c.ElemPtrs && strings.Contains(c.T, "(i_tag "))) && c.T != "true" && c.T != "false" {
 				// statically bounded recursion over symbolic data (the codec): follow feasible branches only
 				// refutations are quick, satisfiability with quantified axioms is not: ask which side is impossible
 				if ci, ni := x.refuteEither(st, c.T); ci {
